@@ -283,6 +283,12 @@ structure PSLoop where
   offset : Nat
   initialized : Bool
 
+/-- ghost: identity of the track leaving a slot -/
+def finOf (x : Slot) : List Rec :=
+  match x.tid with
+  | some old => [⟨x.ev, old, x.parent⟩]
+  | none => []
+
 /-- `make_track_id` for a secondary of the track in slot content `x` (+ ghost record) -/
 def mintSec (s : State) (x : Slot) (parentId : Option Nat) : State :=
   { (makeTrackId s x.ev).2 with
@@ -295,12 +301,9 @@ def psInplace (s : State) (tid : Nat) (x : Slot) (parentId : Option Nat) (sec : 
   let s1 := mintSec s x parentId
   let new : Slot := { x with status := .initializing, tid := some t, parent := parentId,
                              steps := 0, particle := sec.particle }
-  let fin : List Rec := match x.tid with
-    | some old => [⟨x.ev, old, x.parent⟩]
-    | none => []
   { s1 with slots := s1.slots.set tid new,
             started := s1.started ++ [(⟨x.ev, t, parentId⟩ : Rec)],
-            finished := s1.finished ++ fin }
+            finished := s1.finished ++ finOf x }
 
 /-- store the track initializer at `num_initializers - offset` and remember the parent slot -/
 def psPush (c : Counters) (s : State) (tid : Nat) (x : Slot) (parentId : Option Nat) (sec : Sec)
@@ -323,19 +326,20 @@ def processSecondary (c : Counters) (tid : Nat) (parentId : Option Nat) (l : PSL
     { s := psPush c l.s tid x parentId sec l.offset, offset := l.offset - 1,
       initialized := l.initialized }
 
+/-- `sim.status(TrackStatus::inactive)`: the track is no longer used as part of transport -/
+def releaseSlot (s : State) (tid : Nat) : State :=
+  let y := s.slots.getD tid Slot.empty
+  { s with slots := s.slots.set tid { y with status := .inactive },
+           finished := s.finished ++ finOf y }
+
 /-- `ProcessSecondariesExecutor::operator()(tid)`; `c` = by-value copy of the counters -/
 def processSlot (c : Counters) (s : State) (tid : Nat) : State :=
   let x := s.slots.getD tid Slot.empty
   if x.status = .inactive then s else
   let offset := c.numSecondaries - s.secCounts.getD tid 0
   let l := x.secs.foldl (processSecondary c tid x.tid) ⟨s, offset, false⟩
-  let y := l.s.slots.getD tid Slot.empty
-  if ¬ l.initialized ∧ y.status = .killed then
-    let fin : List Rec := match y.tid with
-      | some old => [⟨y.ev, old, y.parent⟩]
-      | none => []
-    { l.s with slots := l.s.slots.set tid { y with status := .inactive },
-               finished := l.s.finished ++ fin }
+  if ¬ l.initialized ∧ (l.s.slots.getD tid Slot.empty).status = .killed then
+    releaseSlot l.s tid
   else l.s
 
 /-- `ExtendFromSecondariesAction::step_impl`.  On a failed capacity check the error carries the
